@@ -23,6 +23,7 @@ type RunSpec struct {
 	Config   *RunConfig          `json:"config,omitempty"` // replay: use this configuration verbatim
 	Debug    bool                `json:"-"`
 	KeepTrace bool               `json:"-"`
+	StopOnClass string           `json:"stop_on_class,omitempty"` // replay/minimisation: end the run once this violation class occurred
 	Variant   int                `json:"variant,omitempty"` // S2/S3 sweeps: which fault variant produced the trace
 }
 
@@ -86,6 +87,7 @@ func RunOne(t *testing.T, spec RunSpec) (res RunResult) {
 		}
 		n := cfg.Voters + cfg.NonVoters + cfg.Spares
 		w := newWorld(ch, cfg, n, spec.Debug)
+		w.stopOnClass = spec.StopOnClass
 		sim := w.sim
 		simrt.Active = sim
 		defer func() { simrt.Active = nil }()
